@@ -7,15 +7,14 @@
 //! Line formats: see `src/serial_common.rs`.  Sub-streams: field, ext, toy, ship.
 #![allow(dead_code, deprecated, non_camel_case_types)]
 use ark_ec::{short_weierstrass as sw, twisted_edwards as te};
-use ark_ff::{Field, PrimeField};
-use ark_serialize::{Compress, EmptyFlags, Validate};
+use ark_ff::{Field, PrimeField, Zero};
+use ark_serialize::{CanonicalSerializeWithFlags, Compress, EmptyFlags, Validate};
 use arkharness::serial_common::*;
 use arkharness::util::*;
 use arkharness::zoo::*;
 
 // ---------------------------------------------------------------- fields
-fn field_mal<F: Field>(out: &mut Out, rng: &mut Rng, fd: &str, vals: &[F], exh: usize, sweeps: usize)
-where F::BasePrimeField: PrimeField {
+fn field_mal<F: Field>(out: &mut Out, rng: &mut Rng, fd: &str, vals: &[F], exh: usize, sweeps: usize) {
     for (i, b) in field_strings::<F, EmptyFlags>(rng, vals, exh, sweeps, true).iter().enumerate() {
         op_mfde::<F>(out, fd, b, Compress::Yes, Validate::Yes);
         if i % 7 == 0 { for (c, v) in &MODES[1..] { op_mfde::<F>(out, fd, b, *c, *v); } }
@@ -35,7 +34,7 @@ fn prime_mal<F: PrimeField>(out: &mut Out, rng: &mut Rng, th: bool) {
     let vals: Vec<F> = edge_prime::<F>(rng, 6);
     field_mal::<F>(out, rng, &fd, &vals, if th { 2 } else { 1 }, if th { 4 } else { 1 });
 }
-fn ext_mal<F: Field>(out: &mut Out, rng: &mut Rng, tower: &str, th: bool) where F::BasePrimeField: PrimeField {
+fn ext_mal<F: Field>(out: &mut Out, rng: &mut Rng, tower: &str, th: bool) {
     let fd = fdesc::<F>(tower);
     let vals = edge_ext::<F>(rng, 3 * F::extension_degree() as usize + 8);
     field_mal::<F>(out, rng, &fd, &vals, 0, if th { 3 } else { 1 });
@@ -58,15 +57,66 @@ fn emit_budget<A: Rep, Pj: Rep>(out: &mut Out, cd: &str, b: &[u8], c: Compress, 
     if i % every == 0 { op_mpde::<Pj>(out, cd, b, c, Validate::No); }
 }
 
-fn slots_sw<Fq: PrimeField>(c: Compress) -> (usize, Vec<(usize, usize)>) {
-    let s0 = Fq::zero().serialized_size_with_flags::<EmptyFlags>();
-    let sl = Fq::zero().serialized_size_with_flags::<sw::SWFlags>();
-    match c { Compress::Yes => (sl, vec![(0, sl)]), Compress::No => (s0 + sl, vec![(0, s0), (s0, sl)]) }
+/// (size, prime-field coefficient slots) of a sequence of field elements; `lasts[i]` = byte length of
+/// the last coefficient of element `i` (longer when it carries flags)
+fn slots_of(k: usize, s0: usize, lasts: &[usize]) -> (usize, Vec<(usize, usize)>) {
+    let mut off = 0; let mut v = Vec::new();
+    for l in lasts { for j in 0..k { let len = if j + 1 == k { *l } else { s0 }; v.push((off, len)); off += len; } }
+    (off, v)
 }
-fn slots_te<Fq: PrimeField>(c: Compress) -> (usize, Vec<(usize, usize)>) {
-    let s0 = Fq::zero().serialized_size_with_flags::<EmptyFlags>();
-    let sl = Fq::zero().serialized_size_with_flags::<te::TEFlags>();
-    match c { Compress::Yes => (sl, vec![(0, sl)]), Compress::No => (2 * s0, vec![(0, s0), (s0, s0)]) }
+fn slots_sw<F: Field>(c: Compress) -> (usize, Vec<(usize, usize)>) {
+    let k = F::extension_degree() as usize;
+    let s0 = F::BasePrimeField::zero().serialized_size_with_flags::<EmptyFlags>();
+    let sl = F::BasePrimeField::zero().serialized_size_with_flags::<sw::SWFlags>();
+    match c { Compress::Yes => slots_of(k, s0, &[sl]), Compress::No => slots_of(k, s0, &[s0, sl]) }
+}
+fn slots_te<F: Field>(c: Compress) -> (usize, Vec<(usize, usize)>) {
+    let k = F::extension_degree() as usize;
+    let s0 = F::BasePrimeField::zero().serialized_size_with_flags::<EmptyFlags>();
+    let sl = F::BasePrimeField::zero().serialized_size_with_flags::<te::TEFlags>();
+    match c { Compress::Yes => slots_of(k, s0, &[sl]), Compress::No => slots_of(k, s0, &[s0, s0]) }
+}
+
+/// `Valid::check` / `batch_check` on in-memory points: valid ones, curve points outside the subgroup, off-curve pairs
+fn sw_check_ops<P: sw::SWCurveConfig>(out: &mut Out, cd: &str, good: &[sw::Affine<P>], other: &[sw::Affine<P>], lam: P::BaseField, nb: usize) {
+    let one = <P::BaseField as ark_ff::One>::one();
+    let mut bad: Vec<sw::Affine<P>> = other.to_vec();
+    for a in good.iter().chain(other.iter()).take(if nb >= 4 { 6 } else { 2 }) { if !a.infinity { bad.push(sw::Affine::<P>::new_unchecked(a.x, a.y + one)); } }
+    for a in good.iter().chain(bad.iter()) {
+        op_pchk(out, cd, a);
+        op_pchk(out, cd, &sw_rescale(&sw::Projective::<P>::from(*a), lam));
+    }
+    let pj = |v: &[sw::Affine<P>]| v.iter().map(|a| sw_rescale(&sw::Projective::<P>::from(*a), lam)).collect::<Vec<_>>();
+    let g: Vec<_> = good.iter().cloned().take(if nb >= 4 { 6 } else { 2 }).collect();
+    op_pbchk::<sw::Affine<P>>(out, cd, &[]);
+    op_pbchk(out, cd, &g);
+    op_pbchk(out, cd, &pj(&g));
+    for b in bad.iter().take(nb) {
+        let mut first = vec![*b]; first.extend(g.iter().cloned());
+        let mut last = g.clone(); last.push(*b);
+        op_pbchk(out, cd, &first); op_pbchk(out, cd, &pj(&last));
+        if nb >= 4 { op_pbchk(out, cd, &last); op_pbchk(out, cd, &pj(&first)); }
+    }
+}
+fn te_check_ops<P: te::TECurveConfig>(out: &mut Out, cd: &str, good: &[te::Affine<P>], other: &[te::Affine<P>], lam: P::BaseField, nb: usize) {
+    let one = <P::BaseField as ark_ff::One>::one();
+    let mut bad: Vec<te::Affine<P>> = other.to_vec();
+    for a in good.iter().chain(other.iter()).take(if nb >= 4 { 6 } else { 2 }) { bad.push(te::Affine::<P>::new_unchecked(a.x + one, a.y)); }
+    for a in good.iter().chain(bad.iter()) {
+        op_pchk(out, cd, a);
+        op_pchk(out, cd, &te_rescale(&te::Projective::<P>::from(*a), lam));
+    }
+    let pj = |v: &[te::Affine<P>]| v.iter().map(|a| te_rescale(&te::Projective::<P>::from(*a), lam)).collect::<Vec<_>>();
+    let g: Vec<_> = good.iter().cloned().take(if nb >= 4 { 6 } else { 2 }).collect();
+    op_pbchk::<te::Affine<P>>(out, cd, &[]);
+    op_pbchk(out, cd, &g);
+    op_pbchk(out, cd, &pj(&g));
+    for b in bad.iter().take(nb) {
+        let mut first = vec![*b]; first.extend(g.iter().cloned());
+        let mut last = g.clone(); last.push(*b);
+        op_pbchk(out, cd, &first); op_pbchk(out, cd, &pj(&last));
+        if nb >= 4 { op_pbchk(out, cd, &last); op_pbchk(out, cd, &pj(&first)); }
+    }
 }
 
 /// all strings of length `size` when that is feasible for the tier, otherwise a structured family
@@ -91,44 +141,58 @@ fn toy_strings<Fq: PrimeField>(rng: &mut Rng, valid: &[Vec<u8>], size: usize, sl
 }
 
 /// `exh2`: enumerate all 2-byte strings; `lean`: only the checked affine mode for them
-fn toy_sw_mal<P: sw::SWCurveConfig>(out: &mut Out, rng: &mut Rng, name: &str, order: u64, th: bool, exh2: bool) where P::BaseField: PrimeField {
+fn toy_sw_mal<P: sw::SWCurveConfig>(out: &mut Out, rng: &mut Rng, name: &str, tw: &str, order: u64, th: bool, exh2: bool) {
     check_sw::<P>(name, order);
-    let cd = sw_desc::<P>(&fdesc::<P::BaseField>("_"));
+    let cd = sw_desc::<P>(&fdesc::<P::BaseField>(tw));
     let mut pts = vec![sw::Affine::<P>::identity()];
     pts.extend(sw_all_points::<P>());
+    {
+        use ark_ec::AffineRepr;
+        let r = <P::ScalarField as PrimeField>::MODULUS;
+        let (good, other): (Vec<_>, Vec<_>) = pts.iter().cloned().partition(|p| ark_ec::CurveGroup::into_affine(p.mul_bigint(r)).infinity);
+        sw_check_ops::<P>(out, &cd, &good, &other, small_f::<P::BaseField>(2), 4);
+    }
     for c in [Compress::Yes, Compress::No] {
         let (size, slots) = slots_sw::<P::BaseField>(c);
         let valid: Vec<Vec<u8>> = pts.iter().map(|p| ser_vec(p, c)).collect();
         let lean = size == 2 && exh2 && !th;
-        for b in toy_strings::<P::BaseField>(rng, &valid, size, &slots, th, exh2) {
+        for b in toy_strings::<<P::BaseField as Field>::BasePrimeField>(rng, &valid, size, &slots, th, exh2) {
             if lean { op_mpde::<sw::Affine<P>>(out, &cd, &b, c, Validate::Yes); } else { emit_all::<sw::Affine<P>, sw::Projective<P>>(out, &cd, &b, c); }
         }
     }
 }
-fn toy_te_mal<P: te::TECurveConfig>(out: &mut Out, rng: &mut Rng, name: &str, order: u64, th: bool, exh2: bool) where P::BaseField: PrimeField {
+fn toy_te_mal<P: te::TECurveConfig>(out: &mut Out, rng: &mut Rng, name: &str, order: u64, th: bool, exh2: bool) {
     check_te::<P>(name, order);
     let cd = te_desc::<P>(&fdesc::<P::BaseField>("_"));
     let pts = te_all_points::<P>();
+    {
+        use ark_ec::AffineRepr;
+        let r = <P::ScalarField as PrimeField>::MODULUS;
+        let (good, other): (Vec<_>, Vec<_>) = pts.iter().cloned().partition(|p| ark_ec::CurveGroup::into_affine(p.mul_bigint(r)).is_zero());
+        te_check_ops::<P>(out, &cd, &good, &other, small_f::<P::BaseField>(2), 4);
+    }
     for c in [Compress::Yes, Compress::No] {
         let (size, slots) = slots_te::<P::BaseField>(c);
         let valid: Vec<Vec<u8>> = pts.iter().map(|p| ser_vec(p, c)).collect();
         let lean = size == 2 && exh2 && !th;
-        for b in toy_strings::<P::BaseField>(rng, &valid, size, &slots, th, exh2) {
+        for b in toy_strings::<<P::BaseField as Field>::BasePrimeField>(rng, &valid, size, &slots, th, exh2) {
             if lean { op_mpde::<te::Affine<P>>(out, &cd, &b, c, Validate::Yes); } else { emit_all::<te::Affine<P>, te::Projective<P>>(out, &cd, &b, c); }
         }
     }
 }
 
-fn ship_sw_mal<P: sw::SWCurveConfig>(out: &mut Out, rng: &mut Rng, n: usize, th: bool) where P::BaseField: PrimeField {
-    let cd = sw_desc::<P>(&fdesc::<P::BaseField>("_"));
+fn ship_sw_mal<P: sw::SWCurveConfig>(out: &mut Out, rng: &mut Rng, n: usize, th: bool, tw: &str, h1: Option<&str>) {
+    let fd = fdesc::<P::BaseField>(tw);
+    let cd = match h1 { Some(h) => sw_desc_with::<P>(&fd, h), None => sw_desc::<P>(&fd) };
     let (sub, other) = sw_sample::<P>(rng, n);
+    sw_check_ops::<P>(out, &cd, &sub[..sub.len().min(if th { 6 } else { 3 })], &other[..other.len().min(if th { 3 } else { 1 })], rand_field::<P::BaseField>(rng), if th { 4 } else { 1 });
     for c in [Compress::Yes, Compress::No] {
         let (size, slots) = slots_sw::<P::BaseField>(c);
         // valid encodings: identity, subgroup points, curve points outside the subgroup / with small-order components
         let mut valid: Vec<Vec<u8>> = Vec::new();
         for (i, p) in sub.iter().enumerate() { valid.push(ser_vec(p, c)); if i < other.len() { valid.push(ser_vec(&other[i], c)); } }
         for p in other.iter().skip(sub.len()) { valid.push(ser_vec(p, c)); }
-        let (mut core, bulk) = point_strings::<P::BaseField>(rng, &valid, size, &slots, if th { 3 } else { 1 }, if th { 40 } else { 8 });
+        let (mut core, bulk) = point_strings::<<P::BaseField as Field>::BasePrimeField>(rng, &valid, size, &slots, if th { 3 } else { 1 }, if th { 40 } else { 8 });
         // x with no point on the curve (compressed: nothing to decompress; uncompressed: y arbitrary)
         for _ in 0..(if th { 8 } else { 2 }) {
             let x = sw_rand_noncurve_x::<P>(rng);
@@ -151,15 +215,16 @@ fn ship_sw_mal<P: sw::SWCurveConfig>(out: &mut Out, rng: &mut Rng, n: usize, th:
         for (i, b) in bulk.iter().enumerate() { emit_budget::<sw::Affine<P>, sw::Projective<P>>(out, &cd, b, c, i, every); }
     }
 }
-fn ship_te_mal<P: te::TECurveConfig>(out: &mut Out, rng: &mut Rng, n: usize, th: bool) where P::BaseField: PrimeField {
+fn ship_te_mal<P: te::TECurveConfig>(out: &mut Out, rng: &mut Rng, n: usize, th: bool) {
     let cd = te_desc::<P>(&fdesc::<P::BaseField>("_"));
     let (sub, other) = te_sample::<P>(rng, n);
+    te_check_ops::<P>(out, &cd, &sub[..sub.len().min(if th { 6 } else { 3 })], &other[..other.len().min(if th { 3 } else { 1 })], rand_field::<P::BaseField>(rng), if th { 4 } else { 1 });
     for c in [Compress::Yes, Compress::No] {
         let (size, slots) = slots_te::<P::BaseField>(c);
         let mut valid: Vec<Vec<u8>> = Vec::new();
         for (i, p) in sub.iter().enumerate() { valid.push(ser_vec(p, c)); if i < other.len() { valid.push(ser_vec(&other[i], c)); } }
         for p in other.iter().skip(sub.len()) { valid.push(ser_vec(p, c)); }
-        let (mut core, bulk) = point_strings::<P::BaseField>(rng, &valid, size, &slots, if th { 3 } else { 1 }, if th { 40 } else { 8 });
+        let (mut core, bulk) = point_strings::<<P::BaseField as Field>::BasePrimeField>(rng, &valid, size, &slots, if th { 3 } else { 1 }, if th { 40 } else { 8 });
         for _ in 0..(if th { 8 } else { 2 }) {
             let y = te_rand_noncurve_y::<P>(rng);
             let yb = ser_vec(&y, Compress::Yes);
@@ -216,26 +281,30 @@ fn main() {
         ext_mal::<mnt6_753::Fq3>(&mut out, &mut rng, "3", th);
     }
     if want("toy") {
-        toy_sw_mal::<SW13B>(&mut out, &mut rng, "SW13B", 21, th, th);
-        toy_sw_mal::<SW13C>(&mut out, &mut rng, "SW13C", 12, th, th);
-        toy_sw_mal::<SW13D>(&mut out, &mut rng, "SW13D", 14, th, true);
-        toy_sw_mal::<SW13E>(&mut out, &mut rng, "SW13E", 20, th, th);
-        toy_sw_mal::<SW13F>(&mut out, &mut rng, "SW13F", 13, th, th);
-        toy_sw_mal::<SW127C>(&mut out, &mut rng, "SW127C", 136, th, th);
-        toy_sw_mal::<SW251A>(&mut out, &mut rng, "SW251A", 282, th, th);
-        toy_sw_mal::<SW251B>(&mut out, &mut rng, "SW251B", 232, th, th);
-        toy_sw_mal::<SW251C>(&mut out, &mut rng, "SW251C", 271, th, th);
-        toy_sw_mal::<SW257A>(&mut out, &mut rng, "SW257A", 258, th, th);
-        toy_te_mal::<TE13A>(&mut out, &mut rng, "TE13A", 20, th, true);
+        toy_sw_mal::<SW13B>(&mut out, &mut rng, "SW13B", "_", 21, th, th);
+        toy_sw_mal::<SW13C>(&mut out, &mut rng, "SW13C", "_", 12, th, th);
+        toy_sw_mal::<SW13D>(&mut out, &mut rng, "SW13D", "_", 14, th, true);
+        toy_sw_mal::<SW13E>(&mut out, &mut rng, "SW13E", "_", 20, th, th);
+        toy_sw_mal::<SW13F>(&mut out, &mut rng, "SW13F", "_", 13, th, th);
+        toy_sw_mal::<SW127C>(&mut out, &mut rng, "SW127C", "_", 136, th, th);
+        toy_sw_mal::<SW251A>(&mut out, &mut rng, "SW251A", "_", 282, th, th);
+        toy_sw_mal::<SW251B>(&mut out, &mut rng, "SW251B", "_", 232, th, th);
+        toy_sw_mal::<SW251C>(&mut out, &mut rng, "SW251C", "_", 271, th, th);
+        toy_sw_mal::<SW257A>(&mut out, &mut rng, "SW257A", "_", 258, th, th);
+        toy_sw_mal::<SW49A>(&mut out, &mut rng, "SW49A", "2:6", 48, th, th);
+        toy_sw_mal::<SW49B>(&mut out, &mut rng, "SW49B", "2:6", 44, th, th);
+        toy_sw_mal::<SW169A>(&mut out, &mut rng, "SW169A", "2:2", 193, th, th);
+        toy_te_mal::<TE13A>(&mut out, &mut rng, "TE13A", 20, th, th);
         toy_te_mal::<TE127A>(&mut out, &mut rng, "TE127A", 124, th, th);
         toy_te_mal::<TE251A>(&mut out, &mut rng, "TE251A", 236, th, th);
         toy_te_mal::<TE251B>(&mut out, &mut rng, "TE251B", 232, th, th);
         toy_te_mal::<TE257A>(&mut out, &mut rng, "TE257A", 236, th, th);
     }
     if want("ship") {
-        ship_sw_mal::<bls12_381::g1::Config>(&mut out, &mut rng, if th { 10 } else { 2 }, th);
-        ship_sw_mal::<secp256k1::Config>(&mut out, &mut rng, if th { 10 } else { 2 }, th);
-        ship_sw_mal::<mnt4_753::g1::Config>(&mut out, &mut rng, if th { 4 } else { 1 }, th);
+        ship_sw_mal::<bls12_381::g1::Config>(&mut out, &mut rng, if th { 10 } else { 2 }, th, "_", None);
+        ship_sw_mal::<secp256k1::Config>(&mut out, &mut rng, if th { 10 } else { 2 }, th, "_", None);
+        ship_sw_mal::<mnt4_753::g1::Config>(&mut out, &mut rng, if th { 4 } else { 1 }, th, "_", None);
+        ship_sw_mal::<bls12_381::g2::Config>(&mut out, &mut rng, if th { 8 } else { 2 }, th, &g2_tower(), Some(&g2_h1()));
         ship_te_mal::<ed_on_bls12_381::EdwardsConfig>(&mut out, &mut rng, if th { 10 } else { 2 }, th);
     }
     out.flush();
